@@ -32,7 +32,8 @@ def run_c01(tier, seed, res):
                      "boundaries_with_score_exactly_0", "type_scorer_cached_table(Wt<=3,no_tags)",
                      "type_scorer_automaton(Wt>3)", "models_with_tag_models",
                      "cases_with_weight_vectors_longer_than_8", "cases_with_weight_vectors_up_to_8",
-                     "matched_chars_2_bytes", "matched_chars_3_bytes", "matched_chars_4_bytes", "window_ge_9"],
+                     "matched_chars_2_bytes", "matched_chars_3_bytes", "matched_chars_4_bytes", "window_ge_9",
+                     "texts_longer_than_65535"],
     }
 
 
@@ -67,7 +68,7 @@ def run_c14(tier, seed, res):
                 "deserialised into q; remaining slice must equal the trailing bytes; scores/boundaries/tags/tag scores of p and q "
                 "are compared on every text and with the reference; non-trivial iff a pattern occurs in a text",
         "required": ["char_ngram_occurrences", "type_ngram_occurrences", "dict_word_occurrences",
-                     "predictors_with_tag_prediction", "cases_with_trailing_bytes",
+                     "predictors_with_tag_prediction", "predictors_with_tag_prediction_on_tagless_model", "cases_with_trailing_bytes",
                      "type_scorer_cached_table(Wt<=3,no_tags)", "type_scorer_automaton(Wt>3)",
                      "cases_with_weight_vectors_longer_than_8", "cases_with_weight_vectors_up_to_8"],
     }
@@ -85,7 +86,9 @@ def run_c02(tier, seed, res):
                 "(start, end, surface, tags) from iter_tokens and the tokenized writer are compared with the reference partition; "
                 "non-trivial iff n >= 2; distinct = distinct (text, labels, tags)" % nmax,
         "required": ["vectors_with_2+_consecutive_skipped_segments", "vectors_with_skipped_first_segment",
-                     "vectors_with_skipped_final_segment", "vectors_without_unknown", "exhaustive_label_vectors"],
+                     "vectors_with_skipped_final_segment", "vectors_without_unknown", "exhaustive_label_vectors",
+                     "sentences_via_from_raw+boundaries_mut", "sentences_via_predict_then_boundaries_mut",
+                     "sentences_via_from_partial_annotation"],
         "exhaustive": True,
         "extra": {"exhaustive_scope": "all 3^(n-1) label vectors for n = 1..%d (the random part is sampled)" % nmax},
     }
@@ -130,14 +133,27 @@ def run_c05(tier, seed, res):
     E.run_workload(res, "mon", "C05x", n, tier, seed)
     E.run_workload(res, "mon", "C05r", sz(tier, 200000, 4000000), tier, seed)
     E.run_workload(res, "mon", "C05h", sz(tier, 200000, 4000000), tier, seed)
+    E.run_workload(res, "mon", "C05p", sz(tier, 30000, 1000000), tier, seed)
+    # the sentence type has feature-gated fields: the same monitors run against two reduced feature configurations
+    names = ["no-tags", "alloc-only"] if tier == "quick" else ["no-tags", "alloc-only", "no-cache", "no-fix", "no-charwise"]
+    build_many(["feat:" + x for x in names])
+    for x in names:
+        E.run_workload(res, "feat:" + x, "C05x", n, tier, seed, tag="c05x-feat-%s" % x)
+        E.run_workload(res, "feat:" + x, "C05r", sz(tier, 40000, 800000), tier, seed, tag="c05r-feat-%s" % x)
+        E.run_workload(res, "feat:" + x, "C05h", sz(tier, 40000, 800000), tier, seed, tag="c05h-feat-%s" % x)
+        res.add_counter("reduced_feature_configurations_run", 1)
     return {
         "rule": "every string of length <= %d over {a, hiragana a, 4-byte kanji, space, /, backslash, -, |, NUL} and random hostile / valid / "
                 "single-edit-mutated strings go through the three constructors and through the three updates on a used sentence; "
                 "Ok results are compared with the reference parsers (text, labels, tags modulo trailing absent, types, lengths, no scores, "
                 "writers and iterator usable), failed updates with Sentence::default(); histories of 1..6 update_*/reset_tags calls are "
-                "compared step by step with a fresh object; distinct = distinct input strings / histories" % maxlen,
+                "compared step by step with a fresh object; histories that also contain predict / fill_tags / filters / direct writes (C08's operation "
+                "set) are checked after every update_* against a fresh parse; the string and history workloads are repeated in builds of the crate "
+                "without tag-prediction and with alloc only; distinct = distinct input strings / histories" % maxlen,
         "required": ["raw_accepted", "raw_rejected", "tokenized_accepted", "tokenized_rejected", "partial_annotation_accepted",
-                     "partial_annotation_rejected", "history_steps", "exhaustive_strings"],
+                     "partial_annotation_rejected", "history_steps", "exhaustive_strings",
+                     "updates_checked_after_histories_with_predictors", "reduced_feature_configurations_run",
+                     "histories_with_raw_update_after_tagged_state"],
         "exhaustive": True,
         "extra": {"exhaustive_scope": "all strings of length <= %d over the 9-symbol alphabet x 3 parsers (random strings and histories are sampled)" % maxlen},
     }
@@ -147,6 +163,21 @@ def run_c05(tier, seed, res):
 # ------------------------------------------------------------------ C07
 def run_c07(tier, seed, res):
     E.run_workload(res, "mon", "C07", sz(tier, 1500, 40000), tier, seed, per_case_timeout=5.0)
+    # the file format must not depend on the feature configuration: model round trip inside reduced builds
+    names = ["no-tags", "alloc-only"]
+    build_many(["feat:" + x for x in names])
+    for x in names:
+        sub = E.Results()
+        E.run_workload(sub, "feat:" + x, "C13", sz(tier, 2000, 20000), tier, seed, tag="c07-feat-%s" % x, chunks=max(1, E.NCPU // 2))
+        for v in sub.violations:
+            if "model_" in v["sig"] or ":abort:" in v["sig"]:
+                v = dict(v)
+                v["sig"] = "C07:" + v["sig"].split(":", 1)[1] + "[features=%s]" % x
+                res.violations.append(v)
+        res.incidents.extend(sub.incidents)
+        res.runs.extend(sub.runs)
+        res.evals += sub.evals
+        res.add_counter("model_round_trips_in_reduced_feature_builds", sub.cases)
     return {
         "rule": "case = one serialised model (generated via the mirror; case 0 = resources/model.bin): to_vec / write / short-write writer give "
                 "identical bytes; read / read_slice / 1..3-byte short reads with Interrupted re-serialise identically and predict like the "
@@ -155,7 +186,8 @@ def run_c07(tier, seed, res):
                 "(3 of 4 models are small enough for complete enumeration; the others and the shipped model use all prefixes < 64 plus 400 sampled points); "
                 "distinct = distinct model byte strings",
         "required": ["prefixes_tried", "prefixes_shorter_than_header", "io_fault_points_tried", "header_mutations_tried",
-                     "models_with_tag_models", "models_fully_enumerated", "shipped_model_checked"],
+                     "models_with_tag_models", "models_fully_enumerated", "shipped_model_checked", "large_model_round_trips",
+                     "model_round_trips_in_reduced_feature_builds"],
         "exhaustive": True,
         "extra": {"exhaustive_scope": "per fully enumerated model: all proper prefixes, all reader/writer fault positions, all 25x255 header byte changes"},
     }
@@ -181,7 +213,8 @@ def run_c08(tier, seed, res):
         "required": ["histories_with_tagged_state_before_final_update", "histories_with_other_predictor_before_final",
                      "histories_with_failed_update_directly_before_final", "final_predictor_with_tags",
                      "final_predictor_storing_scores", "history_ops", "concurrent_predictions", "threads_started",
-                     "cases_with_tag_prediction"],
+                     "cases_with_tag_prediction", "histories_with_line_longer_than_4096_chars",
+                     "cases_starting_on_a_never_used_predictor", "cases_storing_tag_scores"],
     }
 
 
@@ -240,7 +273,8 @@ def run_c11(tier, seed, res):
                 "ambiguous tags, partial annotation, all unknown}; Trainer::new/add_example/train, to_vec/write/read, Predictor::new(false|true), "
                 "predict, fill_tags and every accessor run under catch_unwind; weights checked against the 16-bit range through the mirror; "
                 "every case is non-trivial (an Err from training is a legal outcome and is counted)",
-        "required": ["training_returned_model", "training_returned_error", "train_cli_wrote_model", "configs_with_type_window_gt_char_window",
+        "required": ["training_returned_model", "training_returned_error", "train_cli_wrote_model", "configs_with_window_of_8_or_more",
+                     "cases_with_large_dictionary", "configs_with_type_window_gt_char_window",
                      "configs_with_n_greater_than_window", "configs_with_window_0", "corpora_with_tags"] +
                     ["solver_%d" % i for i in range(8)] +
                     ["corpus_class_%s" % c for c in ["normal", "empty", "single_sentence", "single_character", "no_word_boundary",
@@ -278,7 +312,7 @@ def run_c17(tier, seed, res):
         "required": ["prefixes_tried", "files_with_type_byte_0x04", "files_with_several_dictionaries", "files_with_tag_slots",
                      "files_with_word_longer_than_bucket", "files_with_windows_that_differ", "files_with_extra_stored_weights",
                      "char_ngrams_in_files", "type_ngrams_in_files", "dictionary_words_in_files", "shipped_kytea_model_checked",
-                     "files_with_every_prefix_enumerated"],
+                     "files_with_every_prefix_enumerated", "files_with_char_ids_above_32767", "files_with_word_of_255_or_more_chars"],
     }
 
 
@@ -303,7 +337,8 @@ def run_c19(tier, seed, res):
                 "non-trivial iff a dictionary entry touches a boundary (library) / every tool case",
         "required": ["boundaries_touched_by_old_dictionary", "boundaries_touched_by_new_dictionary", "edits_to_empty_dictionary",
                      "edits_from_empty_dictionary", "words_with_comma_quote_or_newline", "weights_outside_16_bit",
-                     "non_empty_comments", "dictionaries_empty", "corrupted_csv_runs"],
+                     "non_empty_comments", "dictionaries_empty", "corrupted_csv_runs", "new_dictionaries_with_repeated_record",
+                     "dictionaries_with_repeated_record", "new_dictionaries_with_word_of_8_or_more_chars"],
     }
 
 
@@ -321,7 +356,7 @@ def run_c20(tier, seed, res):
                 "modes are compared with each other on text the normaliser leaves unchanged; distinct = distinct (model, input)",
         "required": ["streams_with_empty_first_line", "streams_with_rejected_line", "models_with_tag_models",
                      "lines_checked_by_reference_parser", "evaluate_char_runs_compared", "evaluate_word_runs_compared",
-                     "mode_equivalence_pairs_compared"] + ["predict_runs_flags_%s" % format(m, "04b") for m in range(16)],
+                     "mode_equivalence_pairs_compared", "references_with_normaliser_keys_sprinkled"] + ["predict_runs_flags_%s" % format(m, "04b") for m in range(16)],
     }
 
 
@@ -434,7 +469,8 @@ def run_c16(tier, seed, res):
                 "distinct = distinct code-point blocks / strings / (model, texts, wsconst)",
         "required": ["scalar_values_checked", "scalar_values_changed_by_normaliser", "strings_changed_by_normaliser", "tokens_checked",
                      "streams_compared_with_core_pipeline", "texts_empty", "texts_with_cr_or_lf", "texts_changed_by_normaliser",
-                     "texts_with_multibyte", "tokenizers_from_serialised_predictor", "wsconst_with_grapheme_filter", "wsconst_empty"],
+                     "texts_with_multibyte", "tokenizers_from_serialised_predictor", "wsconst_with_grapheme_filter", "wsconst_empty",
+                     "cases_reusing_one_tokenizer_for_all_texts"],
         "exhaustive": True,
         "extra": {"exhaustive_scope": "the normaliser is checked on every Unicode scalar value; strings and token streams are sampled"},
     }
@@ -480,7 +516,7 @@ def run_c18(tier, seed, res):
                      "tokens_with_tag_model", "filter_changed_something:ConcatGraphemeClustersFilter",
                      "filter_changed_something:SplitLinebreaksFilter", "sentences_with_escape_worthy_char_in_text",
                      "predictors_with_tag_prediction", "feature_configurations_run_with_ub_checks", "predictions_in_feature_builds",
-                     "history_ops"],
+                     "history_ops", "accepted_parser_outputs_run_through_all_filters", "texts_longer_than_65535"],
         "assumptions": COMMON_ASSUMPTIONS + [
             "std's UB-precondition checks cover index/range arguments of the unchecked slice/str APIs, not character-boundary-ness (that is the crate's own debug_assert and the behavioural oracles)",
             "ASan sees heap/stack out-of-bounds and use-after-free in the Rust code only (liblinear is not instrumented); Miri runs only the tiny generator class",
